@@ -527,14 +527,32 @@ def purity_unify(F, rep):
     # externals: the declaration is the only source of purity, `fn` must mean Impure there
     fos = F.fn(TC + "outer_statement")
     forced = False
+    depends_on = None
     for arm, alt in tc.arm_of(F, fos, NR + "Statement", "ExternalDefinition"):
         for asg in nodes(arm["body"], "Assign"):
             r = peel(asg["r"])
             if r.get("k") == "Call" and (callee(r) or "").endswith("Type::Function") and len(r["args"]) == 3:
                 p3 = peel(r["args"][2])
                 forced = p3.get("k") == "Path" and norm_path(p3.get("path") or "").endswith("Purity::Impure")
+                # .. whatever else the declaration says (constant or not, its name): the only thing the conversion may depend
+                # on is the declared type itself.  A mutable `hook : fn int -> int = external` left open is a fresh instance at
+                # every read, so `p : pu int -> int : hook` is accepted.
+                others = {b["hid"]: b["name"] for b in pat_bindings(alt) if b["name"] not in ("ty", "span")}
+                for x, parents in walk(arm["body"]):
+                    if x is asg:
+                        for p_ in parents:
+                            cond = p_.get("c") if p_.get("k") == "If" else (p_.get("scrut") if p_.get("k") == "Match" else None)
+                            if cond is None:
+                                continue
+                            used = [others[y["hid"]] for y in nodes(cond, "Path") if y.get("hid") in others]
+                            if used:
+                                forced = False
+                                depends_on = used[0]
     rep.ob("PURITY-UNIFY", "outer_statement|external-fn-is-impure", forced,
            "an external declared with `fn` gets Purity::Impure (its declaration is all that is known about it)" if forced else
+           "an external declared `fn` becomes impure only depending on `%s` of the declaration: for the others the wildcard purity of "
+           "an annotation stays, every read is a fresh instance of it, and `hook : fn int -> int = external` is accepted where a "
+           "`pu int -> int` is declared (`p : pu int -> int : hook`), so pure functions can call it" % depends_on if depends_on else
            "an external declared `fn` keeps the wildcard purity of an annotation: `tick : fn -> int : external` is accepted where a "
            "`pu -> int` is declared (`h : pu -> int : tick`) and a pure function may then call it", fos["sp"])
     ftf = F.fn(TC + "type_from_function")
